@@ -42,7 +42,7 @@ def run(pid):
     rep.cov["samples"] = [scens[len(scens) // 2]["ops"]]
     # 2. simulate walks
     nsim, depth = (10000, 80) if thorough else (1000, 50)
-    consts = seqeng.kv_consts(5, MIX[pid], depth, deadlines=(0, 0, 1, 2, 3, 5), lowuses=(0, 50, 85, 101), bitsset=(8, 9, 12, 16))
+    consts = seqeng.kv_consts(6, MIX[pid], depth, deadlines=(0, 0, 1, 2, 3, 5), lowuses=(0, 50, 85, 101), bitsset=(8, 9, 12, 16))
     hs2, r2 = seqeng.gen_histories(consts, "sim", num=nsim, seed=vlib.seed())
     rep.cov["transitions"] += r2.states
     cfgl = seqeng.sweep(rng, 64, limits=(30, 30, 70, 200, 1 << 30))
